@@ -24,6 +24,10 @@ use crate::params::{
 use crate::{FuzzyHashType, GeneratorType};
 
 pub(crate) mod bucket_aggregation;
+#[cfg(fast_tlsh_verif)]
+#[allow(missing_docs)]
+#[allow(clippy::missing_docs_in_private_items)]
+pub(crate) mod verif_hooks;
 
 /// Window size to obtain local features.
 ///
